@@ -230,6 +230,48 @@ def _float_atom(x):
     return A("float:%s" % (int(x) if x == int(x) and abs(x) < 1e15 else repr(x)))
 
 
+def rust_debug(v):
+    """`format!("{:?}", v)` for the value kinds of the model (None when a part has no determined rendering)"""
+    k = v[0]
+    if k == "int":
+        return str(v[1])
+    if k == "bool":
+        return "true" if v[1] else "false"
+    if k == "char":
+        c = chr(v[1])
+        return "'%s'" % {"'": "\\'", "\\": "\\\\", "\n": "\\n", "\t": "\\t", "\r": "\\r"}.get(c, c)
+    if k == "str":
+        out = []
+        for c in v[1]:
+            if c in ('"', "\\"):
+                out.append("\\" + c)
+            elif c == "\n":
+                out.append("\\n")
+            elif c == "\t":
+                out.append("\\t")
+            elif c == "\r":
+                out.append("\\r")
+            elif ord(c) < 0x20 or ord(c) == 0x7f:
+                out.append("\\u{%x}" % ord(c))
+            else:
+                out.append(c)
+        return '"' + "".join(out) + '"'
+    if k == "atom" and v[1].startswith("float:"):
+        t = v[1][6:]
+        return t if ("." in t or "e" in t or t in ("inf", "-inf")) else (t + ".0" if t != "nan" else "NaN")
+    if k == "list":
+        return "[" + ", ".join(rust_debug(x) for x in v[1]) + "]"
+    if k == "tuple":
+        return "(" + ", ".join(rust_debug(x) for x in v[1]) + ("," if len(v[1]) == 1 else "") + ")"
+    if v == DEFAULT or isinstance(v, (MutRef,)):
+        raise Unknown("Debug of a value of unknown type")
+    if k == "ctor":
+        if len(v) > 3 and v[3]:
+            raise Unknown("Debug of a struct (field order is not modelled)")
+        return v[1] + ("(" + ", ".join(rust_debug(x) for x in v[2]) + ")" if v[2] else "")
+    raise Unknown("Debug of %s" % k)
+
+
 class AEval(dtable.Eval):
     def __init__(self, inputs=(), funcs=None, consts=None, builtins=None):
         super().__init__(list(inputs))
@@ -403,6 +445,13 @@ class AEval(dtable.Eval):
                 if op == "&&":
                     return B(a and self.truth(e["right"], env))
                 return B(a or self.truth(e["right"], env))
+            if op == "+=" and is_node(e["left"]) and e["left"]["k"] == "Path" and e["left"]["path"] in env and env[e["left"]["path"]][0] == "str":
+                b_ = self.ex(e["right"], env)
+                if b_[0] != "str":
+                    raise Unknown("+= of a non string onto a string")
+                env[e["left"]["path"]] = ("str", env[e["left"]["path"]][1] + b_[1])
+                self._note_assigned(e["left"]["path"])
+                return UNIT
             if op in ("+=", "-=", "*=") and is_node(e["left"]):
                 lf = e["left"]
                 while is_node(lf) and lf["k"] in ("Paren",) or (is_node(lf) and lf["k"] == "Unary" and lf.get("op") == "*"):
@@ -440,6 +489,10 @@ class AEval(dtable.Eval):
                 raise Unknown("ordering of non numbers")
             if op in ("+", "-") and a[0] == "int" and b[0] == "int":
                 return I(a[1] + b[1] if op == "+" else a[1] - b[1])
+            if op in ("<<", ">>", "&", "|", "^") and a[0] == "int" and b[0] == "int" and a[1] >= 0 and b[1] >= 0:
+                return I({"<<": a[1] << b[1], ">>": a[1] >> b[1], "&": a[1] & b[1], "|": a[1] | b[1], "^": a[1] ^ b[1]}[op])
+            if op == "+" and a[0] == "str" and b[0] == "str":
+                return ("str", a[1] + b[1])
             if op in ("*", "/", "%") and a[0] == "int" and b[0] == "int":
                 if op == "*":
                     return I(a[1] * b[1])
@@ -835,7 +888,11 @@ class AEval(dtable.Eval):
             vals = [self.ex(a, env) for a in e["args"][1:]]
             vals = [("float", v[1][6:]) if v[0] == "atom" and v[1].startswith("float:") else v for v in vals]      # an f64: `{}` and `{:?}` print it differently
             vals = [("str", self.tokens_of(v)) if v[0] in ("tok", "atom") else v for v in vals]
-            vals = [("str", "true" if v[1] else "false") if v[0] == "bool" else v for v in vals]
+            vals = [("raw", "true" if v[1] else "false") if v[0] == "bool" else v for v in vals]
+            if f[0] == "str" and "{:?}" in f[1]:
+                # `{:?}` of a composite value (Vec, tuple, Option ..): Rust's Debug rendering
+                specs = re.findall(r"\{(:[^}]*)?\}", f[1].replace("{{", "").replace("}}", ""))
+                vals = [("raw", rust_debug(v)) if k_ < len(specs) and specs[k_] == ":?" and v[0] in ("list", "tuple", "ctor") and v != DEFAULT else v for k_, v in enumerate(vals)]
             if getattr(self, "display", None) is not None:
                 vals = [self.display(v) if v[0] == "ctor" else v for v in vals]
             vals = [self._program_display(v) if v[0] == "ctor" else v for v in vals]
@@ -1764,6 +1821,13 @@ class AEval(dtable.Eval):
                 return self.apply(args[0], [r[2][0]]) if r[1] == "Ok" else r
             if m in ("unwrap_or",) and len(args) == 1:
                 return r[2][0] if r[1] == "Ok" else args[0]
+            if m == "err" and not args:
+                return C("Some", r[2][0]) if r[1] == "Err" and r[2] else C("None")
+            if m == "is_ok_and" and len(args) == 1:
+                return B(r[1] == "Ok" and self._b(self.apply(args[0], [r[2][0]])))
+        if m == "collect" and r[0] == "list" and re.sub(r"\s+", "", e.get("turbofish") or "") in ("::<String>", "<String>", "::<std::string::String>") \
+                and all(x[0] in ("char", "str") for x in r[1]):
+            return ("str", "".join(chr(x[1]) if x[0] == "char" else x[1] for x in r[1]))
         if m == "collect" and (r[0] == "list" or r == DEFAULT) and re.match(r"^(::)?<(std::result::|core::result::)?Result<", re.sub(r"\s+", "", e.get("turbofish") or "")) and not (r[0] == "list" and r[1]):
             return C("Ok", L())        # no items: an empty collection, successfully
         if m == "collect" and r[0] == "list" and r[1] and all(x[0] == "ctor" and x[1] in ("Ok", "Err") for x in r[1]) and "Result" in (e.get("turbofish") or ""):
@@ -1773,6 +1837,14 @@ class AEval(dtable.Eval):
             return C("Ok", L(*[x[2][0] for x in r[1]]))
         if r[0] in ("int",) and m in ("is_finite",) and not args:
             return B(True)
+        if r[0] == "int" and m in ("pow", "min", "max", "saturating_sub", "saturating_add", "div_ceil", "wrapping_add", "abs_diff") and len(args) == 1 and args[0][0] == "int" and m not in self.builtins:
+            a_, b_ = r[1], args[0][1]
+            if m == "div_ceil" and b_ == 0:
+                raise Ret(C("!panic"))
+            return I({"pow": lambda: a_ ** b_, "min": lambda: min(a_, b_), "max": lambda: max(a_, b_), "saturating_sub": lambda: max(0, a_ - b_) if a_ >= 0 and b_ >= 0 else a_ - b_,
+                      "saturating_add": lambda: a_ + b_, "div_ceil": lambda: -(-a_ // b_), "wrapping_add": lambda: a_ + b_, "abs_diff": lambda: abs(a_ - b_)}[m]())
+        if r[0] == "int" and m in ("abs", "signum") and not args and m not in self.builtins:
+            return I(abs(r[1]) if m == "abs" else (r[1] > 0) - (r[1] < 0))
         if r[0] == "atom" and r[1].startswith("float:") and m in ("fract", "trunc", "floor", "ceil", "abs", "round", "is_sign_negative", "is_sign_positive") and not args and _num(r) is not None \
                 and r[1][6:] not in ("inf", "-inf", "nan"):
             import math as _m
@@ -1818,6 +1890,17 @@ class AEval(dtable.Eval):
             return UNIT if m != "try_reserve" else C("Ok", UNIT)
         if r[0] == "list":
             xs = list(r[1])
+            if m in ("sum", "product") and not args and all(x[0] == "int" for x in xs):
+                tot = 0 if m == "sum" else 1
+                for x in xs:
+                    tot = tot + x[1] if m == "sum" else tot * x[1]
+                return I(tot)
+            if m == "nth" and len(args) == 1 and args[0][0] == "int":
+                return C("Some", xs[args[0][1]]) if 0 <= args[0][1] < len(xs) else C("None")
+            if m in ("max", "min") and not args and all(x[0] == "int" for x in xs):
+                return C("Some", (max if m == "max" else min)(xs, key=lambda x: x[1])) if xs else C("None")
+            if m == "step_by" and len(args) == 1 and args[0][0] == "int" and args[0][1] > 0:
+                return L(*xs[::args[0][1]])
             if m == "any":
                 return B(any(self._b(self.apply(args[0], [x])) for x in xs))
             if m == "all":
@@ -2025,6 +2108,10 @@ class AEval(dtable.Eval):
                 return r[2][0] if some else DEFAULT
             if m == "flatten" and not args:
                 return r[2][0] if some and r[2][0][0] == "ctor" and r[2][0][1] in ("Some", "None") else (r if not some else r)
+            if m in ("iter", "into_iter") and not args:
+                return L(*r[2][:1]) if some else L()
+            if m == "chain" and len(args) == 1 and args[0][0] == "list":
+                return L(*(list(r[2][:1] if some else []) + list(args[0][1])))
             if m == "map_or":
                 return self.apply(args[1], [r[2][0]]) if some else args[0]
             if m == "map_or_else":
@@ -2138,6 +2225,15 @@ class AEval(dtable.Eval):
         sa = (chr(a0[1]) if a0 and a0[0] == "char" else (a0[1] if a0 and a0[0] == "str" else None))
         if m == "trim" and not args:
             return ("str", t.strip())
+        if m == "is_ascii" and not args:
+            return B(t.isascii())
+        if m == "rsplit" and sa is not None and len(args) == 1 and sa != "":
+            return L(*[("str", x) for x in reversed(t.split(sa))])
+        if m in ("splitn", "rsplitn") and len(args) == 2 and args[0][0] == "int" and sa is None:
+            sb = chr(args[1][1]) if args[1][0] == "char" else (args[1][1] if args[1][0] == "str" else None)
+            if sb is not None and args[0][1] >= 1:
+                parts = t.split(sb, args[0][1] - 1) if m == "splitn" else list(reversed(t.rsplit(sb, args[0][1] - 1)))
+                return L(*[("str", x) for x in parts])
         if m in ("trim_matches", "trim_start_matches", "trim_end_matches") and len(args) == 1:
             a0_ = args[0]
             chars = None
